@@ -76,6 +76,25 @@ for mask in range(2**len(edges)):
             if c:
                 ok = len(c)>=2 and c[0]==c[-1] and all(c[i+1] in g[c[i]] for i in range(len(c)-1)) and set(c)<=R
                 if not ok or not cyc: fails.append((g,keys,"getcycle returned %r which is not a dependency cycle reachable from the keys"%(c,)))
+    # start keys given as a single (possibly falsy) key, and the empty list
+    inames = list(range(N))
+    gi = {i: [names.index(b) for b in g[names[i]]] for i in inames}
+    dski = {i: (f,) + tuple(gi[i]) for i in inames}
+    for single in inames + [[]]:
+        cases += 1
+        ks = [single] if not isinstance(single, list) else single
+        R = reach(gi, ks); cyc = has_cycle(gi, sorted(R))
+        try:
+            signal.setitimer(signal.ITIMER_REAL, 2)
+            c = getcycle(dski, single); d = isdag(dski, single)
+            signal.setitimer(signal.ITIMER_REAL, 0)
+        except TO:
+            fails.append((gi, single, "getcycle does not terminate (2 s)")); continue
+        except Exception as e:
+            signal.setitimer(signal.ITIMER_REAL, 0)
+            fails.append((gi, single, "getcycle raised %r" % (e,))); continue
+        if d != (not c) or bool(c) != cyc or (c and not set(c) <= R):
+            fails.append((gi, single, "getcycle(keys=%r) -> %r, isdag %r; reachable cycle: %r" % (single, c, d, cyc)))
     if len(fails)>=5: break
 print(json.dumps({"cases":cases,"fails":fails[:5]}))
 '''
